@@ -47,10 +47,16 @@ func scriptIsBad(s []byte) bool {
 	return false
 }
 
-// stubRec is what the harness knows about a conflict record on chain.
+// stubRec is what the harness knows about the conflicting transactions it put on chain for one hash:
+// their block indexes and signers, in the order they were stored (the model folds
+// dao.StoreAsTransaction over this history itself).
 type stubRec struct {
+	hist []confEntry
+}
+
+type confEntry struct {
 	idx     uint32
-	signers map[util.Uint160]uint32
+	signers []util.Uint160
 }
 
 // record registers a block's transactions as on chain (transaction records and conflict stubs,
@@ -62,13 +68,14 @@ func (st *state) record(idx uint32, txs []*transaction.Transaction) {
 			h := a.Value.(*transaction.Conflicts).Hash
 			s := st.stubs[h]
 			if s == nil {
-				s = &stubRec{signers: map[util.Uint160]uint32{}}
+				s = &stubRec{}
 				st.stubs[h] = s
 			}
-			s.idx = idx
+			e := confEntry{idx: idx}
 			for _, sg := range t.Signers {
-				s.signers[sg.Account] = idx
+				e.signers = append(e.signers, sg.Account)
 			}
+			s.hist = append(s.hist, e)
 		}
 	}
 }
@@ -85,6 +92,27 @@ func (st *state) acctName(h util.Uint160) string {
 		return "oraclecontract"
 	}
 	return "x" + short160(h)
+}
+
+// conflictInWindow is the SPECIFICATION of the on-chain conflict test for transaction t at the tip: some
+// transaction on chain names t's hash in a Conflicts attribute, shares a signer with t and sits inside
+// the traceability window (index <= h < index + MaxTraceableBlocks).
+func (st *state) conflictInWindow(t *transaction.Transaction) bool {
+	s := st.stubs[t.Hash()]
+	if s == nil {
+		return false
+	}
+	for _, e := range s.hist {
+		if !(e.idx <= st.h && e.idx+st.mtb() > st.h) {
+			continue
+		}
+		for _, a := range e.signers {
+			if t.HasSigner(a) {
+				return true
+			}
+		}
+	}
+	return false
 }
 
 // witAll identifies all the witnesses of a transaction (for one witness: that witness' id).
@@ -246,12 +274,15 @@ func (st *state) recLines(txs []*transaction.Transaction) []string {
 			return
 		}
 		if s, ok := st.stubs[h]; ok {
-			var sg []string
-			for a, i := range s.signers {
-				sg = append(sg, fmt.Sprintf("%s@%d", st.acctName(a), i))
+			var es []string
+			for _, e := range s.hist {
+				var sg []string
+				for _, a := range e.signers {
+					sg = append(sg, st.acctName(a))
+				}
+				es = append(es, fmt.Sprintf("%d:%s", e.idx, strings.Join(sg, "+")))
 			}
-			sort.Strings(sg)
-			out = append(out, fmt.Sprintf("rec %s stub %d %s", short(h), s.idx, strings.Join(sg, "+")))
+			out = append(out, fmt.Sprintf("rec %s hist %s", short(h), strings.Join(es, ",")))
 		}
 	}
 	for _, t := range txs {
